@@ -4,6 +4,7 @@ package c02
 import (
 	"context"
 	"fmt"
+	"os"
 	"sort"
 	"strings"
 	"testing"
@@ -15,6 +16,8 @@ import (
 
 func TestMain(m *testing.M) { vlib.Main(m) }
 
+var devNull, _ = os.OpenFile(os.DevNull, os.O_WRONLY, 0)
+
 type config struct {
 	Format      string // color | logfmt | json
 	ExtraFlags  slog.Flags
@@ -24,6 +27,10 @@ type config struct {
 	NNormal     int
 	NError      int
 	NLevel      int
+	// AddOnly: the writers are given with AddWriter/AddErrorWriter only (in the drawn order), so the package's
+	// standard devices stay first in both lists; os.Stdout/os.Stderr point at /dev/null while the lists are built
+	AddOnly       bool
+	ErrAddedFirst bool
 }
 
 var flagChoices = []slog.Flags{slog.Lcaller, slog.LattrsR, slog.Ldate, slog.Ltime, slog.Lmicroseconds, slog.Lprivacypath,
@@ -44,6 +51,8 @@ func genConfig() *rapid.Generator[config] {
 		c.NNormal = rapid.IntRange(1, 3).Draw(t, "nnormal")
 		c.NError = rapid.IntRange(1, 2).Draw(t, "nerror")
 		c.NLevel = rapid.SampledFrom([]int{0, 0, 0, 1, 2}).Draw(t, "nlevel")
+		c.AddOnly = rapid.IntRange(0, 3).Draw(t, "addOnly") == 0
+		c.ErrAddedFirst = rapid.Bool().Draw(t, "errAddedFirst")
 		return c
 	})
 }
@@ -102,23 +111,43 @@ func run(t vlib.TB, test string, c config, k call) {
 	id := 0
 	next := func() vlib.Writer { id++; return vlib.NewRec(log, id, id) }
 	var normals, errs, lvls []int
-	for i := 0; i < c.NNormal; i++ {
-		w := next()
-		if i == 0 {
-			lg.SetWriter(w)
-		} else {
-			lg.AddWriter(w)
+	addNormals := func() {
+		for i := 0; i < c.NNormal; i++ {
+			w := next()
+			if i == 0 && !c.AddOnly {
+				lg.SetWriter(w)
+			} else {
+				lg.AddWriter(w)
+			}
+			normals = append(normals, w.ID())
 		}
-		normals = append(normals, w.ID())
 	}
-	for i := 0; i < c.NError; i++ {
-		w := next()
-		if i == 0 {
-			lg.SetErrorWriter(w)
-		} else {
-			lg.AddErrorWriter(w)
+	addErrors := func() {
+		for i := 0; i < c.NError; i++ {
+			w := next()
+			if i == 0 && !c.AddOnly {
+				lg.SetErrorWriter(w)
+			} else {
+				lg.AddErrorWriter(w)
+			}
+			errs = append(errs, w.ID())
 		}
-		errs = append(errs, w.ID())
+	}
+	if c.AddOnly {
+		realOut, realErr := os.Stdout, os.Stderr
+		os.Stdout, os.Stderr = devNull, devNull
+		lg.ResetWriters() // the standard lists, now holding /dev/null
+		if c.ErrAddedFirst {
+			addErrors()
+			addNormals()
+		} else {
+			addNormals()
+			addErrors()
+		}
+		os.Stdout, os.Stderr = realOut, realErr
+	} else {
+		addNormals()
+		addErrors()
 	}
 	for i := 0; i < c.NLevel; i++ {
 		w := next()
@@ -221,7 +250,7 @@ func run(t vlib.TB, test string, c config, k call) {
 	}
 
 	// classification
-	labels := []string{"format=" + c.Format, "ep=" + k.EP.Kind, fmt.Sprintf("admit=%v", admit)}
+	labels := []string{"format=" + c.Format, "ep=" + k.EP.Kind, fmt.Sprintf("admit=%v", admit), fmt.Sprintf("add-only=%v", c.AddOnly)}
 	for l := range k.Args.Labels {
 		labels = append(labels, "args:"+l)
 	}
